@@ -6,7 +6,9 @@ import glob, json, os
 ROOT = os.path.dirname(os.path.dirname(os.path.abspath(__file__)))
 by = {}
 def add(p, src, case):
-    if not case or case == "None" or case.startswith("conc") or len(case) > 20000:
+    # result files keep at most 100000 characters of a case (older ones 6000): a case of exactly that length
+    # was cut and is useless; very long cases stay out of the corpus anyway
+    if not case or case == "None" or case.startswith("conc") or len(case) in (6000, 100000) or len(case) > 50000:
         return
     case = case.replace("p2id ", "p2i ").replace("p2ild ", "p2il ")
     if case not in [c for _, c in by.setdefault(p, [])]:
@@ -24,5 +26,9 @@ for p, l in by.items():
     with open(os.path.join(ROOT, "corpus", p + ".cases"), "w") as f:
         f.write("# corpus for %s: failing inputs of past findings and seeded defects (original generator-produced cases); run first on every check\n" % p)
         for src, case in l:
-            f.write("# %s\n%s\n" % (src, case))
+            # histories that fill hundreds of thousands of bits back to front are quadratic for the list-based
+            # model: thorough tier only
+            import re
+            heavy = any(int(b) - int(a) > 100000 for a, b in re.findall(r"F(\d+):(\d+)", case)) if case.startswith("tb ") else False
+            f.write("# %s\n%s%s\n" % (src, "#thorough " if heavy else "", case))
 print({p: len(l) for p, l in by.items()})
